@@ -33,6 +33,8 @@ TEXT = {
          "seeded structured corruption of real stored blobs, not coverage-guided fuzzing and not exhaustive over short inputs (stated in DESIGN section 7)"),
  "C13": ("Close / second-party rewrite / reload histories on the simulated disk: the stored version triple is set to every supported value, its neighbours, the surrounding box and far-out values; the documented 1.18.0 variant marker is flipped; the directory is given each layout (legacy, Database2, none, both, missing, file moved across layouts). load_database must return exactly the schema the triple (and marker) name, throw unsupported_database for every other triple, throw database_not_found for no/both/missing layouts, and database_exists must agree; no triple may ever load as a different supported schema.",
          "a thin use of the simulator (decision table over second-party disk states); 3.0.0 and cross-layout triples are outside the statement and accept the mapped schema or an exception"),
+ "C17": ("Second-party schema drift between close and reload: for libraries of every supported schema (music and, on 1.x, performance database) exactly one structural edit is applied while the library is closed - drop / add / rename of a table, view, column or index, change of a column's declared type, nullability, default or primary-key membership, change of an index's uniqueness or columns - and after reload verify() must report it; before every edit verify() must accept the library in the state the preceding history reached. Only edits that are well-formed and visible through sqlite_master / table_info / index_list / index_info are judged.",
+         "a thin use of the simulator (second party + disk); any exception from verify()/load counts as reported, only silent acceptance is a violation"),
  "C15": ("Hostile-caller simulated histories on every supported schema with the library built with AddressSanitizer, UndefinedBehaviorSanitizer and libstdc++ assertions: ordinary operations are interleaved with out-of-range cue/loop indices, over-long cue lists, NUL / invalid-UTF-8 / 300-byte labels, waveforms without sample rate or count, ids of nonexistent or removed entities, create_*_after with crates from elsewhere in the tree, odd crate names and every member function of stale track and crate handles. Each call must return or throw a std::exception; any sanitizer report, signal, assertion, watchdog (VM ticks, inflate progress, wall clock) or foreign exception is a violation attributed to the flushed run; stale handles must keep their id and report is_valid() == false.",
          "finite doubles only (as the statement quantifies); C++ operator new failure is not injected"),
  "C16": ("In every state reached by the workloads a monitor brackets the complete block of observing calls (every getter, snapshot(), listings, lookups) with SimDisk write/truncate/delete counters for non-temporary files, sqlite3_total_changes of the library's connections and the image hash; the block is repeated with the simulated clock moved and must give identical answers.",
